@@ -43,6 +43,8 @@ def run(ctx):
     g7(ctx, R)
     g8(ctx, R)
     g9(ctx, R)
+    # a tag written in another letter case is the same tag: what is recorded for it (its parameter) must not depend on the spelling
+    c01.g6(ctx, R)
     t3p(ctx, R)
     # the tree of THIS parse only: every parser attribute a handler writes (incl. result) is re-initialised per parse (rule H2 of C13)
     from .c13 import h2
